@@ -41,7 +41,7 @@ class C01(pure.Spec):
         C.cargo_build(os.path.join(C.VERIF, "harness", "app"), "release")
 
     def runs(self, tier, seed):
-        n = 120 if tier == "quick" else 6000
+        n = 120 if tier == "quick" else 2500
         return [("e2e", "release", ["e2e", "--seed", str(seed), "--n", str(n)], None)]
 
     def cell(self, case, impl):
